@@ -146,6 +146,17 @@ type Script struct {
 	Scope string
 	Body  []Stmt
 	Line  int
+	// NameV, if set, is the script's label (inline map scripts have composite
+	// names); Name may then be nil.
+	NameV func() interp.Value
+}
+
+// NameValue is the script's entry label.
+func (s *Script) NameValue() interp.Value {
+	if s.NameV != nil {
+		return s.NameV()
+	}
+	return s.Name.Val
 }
 
 type TopRaw struct{ Text string } // any other top-level text
